@@ -122,32 +122,31 @@ Definition set_delete_key (now : Z) (key : bytes) : M unit :=
         (upd_key_id (k_id k) (fun r => with_len (with_mtime (with_ver r 0) 0) (Some 0)) d1, Ok tt)
     end.
 
-(* "insert into rset (kid, elem) select ?, elem from ...": plain inserts, a
-   duplicate is a UNIQUE failure of the whole statement *)
-Fixpoint set_insert_all (kid : Z) (elems : list bytes) (n : Z) : M Z :=
+(* replace(): deleteKey, createKey, then one sqlAdd2 per element; the result
+   was computed by the caller before the destination is emptied *)
+Fixpoint set_add_all (kid : Z) (elems : list bytes) : M unit :=
   match elems with
-  | [] => ret n
-  | e :: r =>
-      fun d =>
-        if existsb (fun x => (e_kid x =? kid) && String.eqb (e_elem x) e) (rset d)
-        then (d, Err (ESql (SqUnique "rset.kid,rset.elem")))
-        else
-          let d1 := set_rset d (rset d ++ [mkE (next_set_rid d) kid e]) in
-          set_insert_all kid r (n + 1) (upd_key_id kid (fun x => with_len x (opt_add (k_len x) 1)) d1)
+  | [] => ret tt
+  | e :: r => set_add2 kid (Some e) ;;; set_add_all kid r
   end.
-(* statement-level atomicity of the insert-select *)
-Definition stmt_atomic {A} (m : M A) : M A :=
-  fun d => let '(d1, r) := m d in match r with Ok _ => (d1, r) | Err _ => (d, r) end.
+
+Definition set_replace (now : Z) (dest : bytes) (elems : list bytes) : M Z :=
+  set_delete_key now dest ;;;
+  k <- set_add1 now dest ;;
+  set_add_all (k_id k) elems ;;;
+  ret (zlen elems).
 
 Definition set_store (a : setalg) (now : Z) (dest : bytes) (keys : list bytes) : M Z :=
   match keys with
   | [] => ret 0
   | _ =>
-      set_delete_key now dest ;;;
-      k <- set_add1 now dest ;;
-      d <- get_db ;;
-      stmt_atomic (set_insert_all (k_id k) (q_alg a now d keys) 0)
+      elems <- set_alg a now keys ;;
+      set_replace now dest elems
   end.
+
+(* statement-level atomicity of a multi-row statement *)
+Definition stmt_atomic {A} (m : M A) : M A :=
+  fun d => let '(d1, r) := m d in match r with Ok _ => (d1, r) | Err _ => (d, r) end.
 
 Definition set_exists (now : Z) (key : bytes) (v : value) : M bool :=
   elemb <- (match to_bytes v with Some b => ret b | None => fail EValueType end) ;;
